@@ -163,7 +163,7 @@ func Produce(plan Plan, hooks Hooks) *History {
 					if res.Panic != "" {
 						break
 					}
-					if spec := fn(leader.Ctx(hdr)); spec != nil {
+					if spec := safeGen(fn, leader.Ctx(hdr)); spec != nil { // a generator that cannot build its message is skipped
 						deliver(spec)
 					}
 				}
